@@ -41,6 +41,7 @@ def oracle(script: dict, run: Any) -> List[Violation]:
         out.append(Violation("C15/loop-died", f"the scheduler loop ended by itself (exception {e[4]['exc']})"))
         return out
     ps = polls(script, h)
+    tol = TOL_US + 50_000 * int(run.fault_counts.get("cpu_stall", 0))       # every counted CPU stall may add up to 50 ms
     # ---------------------------------------------------------------- (a) poll instants
     minute0 = start - start % MIN
     expected = [start]
@@ -51,10 +52,10 @@ def oracle(script: dict, run: Any) -> List[Violation]:
     for i, src in enumerate(script["sources"]):
         calls = [e for e in h.kind("list_call") if e[4]["source"] == i]
         times = [e[2] for e in calls]
-        ok = len(times) >= len(expected) and all(ex <= t <= ex + TOL_US for ex, t in zip(expected, times))
+        ok = len(times) >= len(expected) and all(ex <= t <= ex + tol for ex, t in zip(expected, times))
         extra = [t for t in times[len(expected):] if t < end - 1_000_000]
         if not ok or extra:
-            missing = [ex for k, ex in enumerate(expected) if k >= len(times) or not (ex <= times[k] <= ex + TOL_US)]
+            missing = [ex for k, ex in enumerate(expected) if k >= len(times) or not (ex <= times[k] <= ex + tol)]
             out.append(Violation("C15/poll-instants", f"source {i}: get_schedules() called at wall offsets {[t - start for t in times][:12]}us, "
                                  f"expected start and every minute boundary {[x - start for x in expected][:12]}us (first deviation at {missing[:1]})", source=i))
             return out
@@ -84,7 +85,7 @@ def oracle(script: dict, run: Any) -> List[Violation]:
                 if off is not None and "zone" in off and not zones_agree(off["zone"], now):
                     continue
                 # evaluation happens between the list result and +TOL; skip if that window straddles a minute
-                if (t_eval % MIN) > MIN - TOL_US:
+                if (t_eval % MIN) > MIN - tol:
                     continue
                 want = cron_matches(sp["cron"], shifted(now, off))
                 got = [e for e in kicks.get(sid, []) if lo <= e[2] < hi]
@@ -113,10 +114,10 @@ def oracle(script: dict, run: Any) -> List[Violation]:
             tau = p["t_eval"] if p["t_eval"] is not None else p["wall"]
             kind, val = c14_expect(tau, T)
             if kind == "zero":
-                E = (tau, tau + SLACK_US, "immediate")
+                E = (tau, tau + SLACK_US + tol, "immediate")
                 break
             if kind == "delay":
-                E = (tau + val[0] * 1_000_000, tau + val[0] * 1_000_000 + SLACK_US + TOL_US, "delayed")
+                E = (tau + val[0] * 1_000_000, tau + val[0] * 1_000_000 + SLACK_US + tol, "delayed")
                 break
         ks = kicks.get(sid, [])
         good = [e for e in ks if (sid, e[4]["n"]) in oks]
@@ -150,9 +151,9 @@ def oracle(script: dict, run: Any) -> List[Violation]:
             first = ks[0][2]
             if first < T and not (E is not None and E[2] == "immediate"):
                 out.append(Violation("C15/one-shot-early", f"one-shot {sid}: first send at {from_us(first).isoformat()} before T={from_us(T).isoformat()}", sid=sid))
-            elif E is not None and E[2] == "delayed" and first >= T + 1_000_000 + SLACK_US and not listing_fault and not failed_sends:
+            elif E is not None and E[2] == "delayed" and first >= T + 1_000_000 + SLACK_US + tol and not listing_fault and not failed_sends:
                 out.append(Violation("C15/one-shot-late", f"one-shot {sid}: first send at {from_us(first).isoformat()}, more than 1 s after T={from_us(T).isoformat()}", sid=sid))
-            elif E is not None and E[2] == "immediate" and first > E[1] + TOL_US and not failed_sends:
+            elif E is not None and E[2] == "immediate" and first > E[1] + tol and not failed_sends:
                 out.append(Violation("C15/one-shot-late", f"one-shot {sid} (already past when first listed): sent at {from_us(first).isoformat()}, expected at the poll at {from_us(E[0]).isoformat()}", sid=sid))
         elif E is not None and E[1] + 2_500_000 < end:
             out.append(Violation("C15/one-shot-never-sent", f"one-shot {sid} with T={from_us(T).isoformat()} was listed in time but never sent (expected about {from_us(E[0]).isoformat()})", sid=sid))
